@@ -204,19 +204,12 @@ pub fn generate(seed: u64, iour_ok: bool) -> Program {
     };
     let main_rt = r.pct(50);
     let sender_rt = r.pct(35);
-    // Known finding C18-join-holds-pool-slot: join parks its joiner on the blocking pool the
-    // workers use; a body that needs the pool while join is under way can starve for ever (one-slot
-    // pool: no slot left; any limit: the pool thread spawned for the body's job is taken by the
-    // joiner and the worker blocks in AsyncifyPool::dispatch).  The dedicated scenarios cover
-    // that; random programs stay clear of it so that they terminate: no pool use with a one-slot
-    // pool or with faulty workers, and a task that uses the pool is awaited before join.
-    let allow_blocking = pool_limit != 1 && fault == "none";
-    // Known finding C18-dispatch-blocking-starved (AsyncifyPool): a pool thread that dies with a
-    // panicking dispatch_blocking closure can leave a concurrent AsyncifyPool::dispatch blocked for
-    // ever.  Random programs let a dispatch_blocking body panic only when nothing else can use the
-    // pool at that time: one dispatching thread, the receiver awaited right after the dispatch, no
-    // pool use by async bodies (dedicated scenario: poolpanic).
-    let allow_bpanic = ns == 1;
+    // Both combinations that the two findings C18-join-holds-pool-slot (repaired, /repo d1f1c64)
+    // and C18-dispatch-blocking-starved (repaired, /repo 4304f73) made hang are generated again:
+    // bodies use the pool with a one-slot pool, with faulty workers and while join is under way,
+    // and dispatch_blocking bodies panic while other threads use the pool.
+    let allow_blocking = true;
+    let allow_bpanic = true;
     let mut tasks = Vec::new();
     for id in 1..=ntasks {
         let kind = if r.pct(20) { "blocking" } else { "async" };
@@ -225,16 +218,6 @@ pub fn generate(seed: u64, iour_ok: bool) -> Program {
             kind: kind.to_string(),
             body: gen_body(&mut r, kind, allow_blocking, sender_rt, allow_bpanic),
         });
-    }
-    let bpanic = |t: &TaskSpec| t.kind == "blocking" && t.body.contains(&Step::Panic);
-    if tasks.iter().any(bpanic) {
-        for t in tasks.iter_mut().filter(|t| t.kind == "async") {
-            for st in t.body.iter_mut() {
-                if *st == Step::Blocking {
-                    *st = Step::Yield { n: 1 };
-                }
-            }
-        }
     }
     // distribute the tasks over the dispatching threads
     let mut threads: Vec<Vec<Op>> = vec![Vec::new(); ns];
@@ -248,11 +231,6 @@ pub fn generate(seed: u64, iour_ok: bool) -> Program {
             });
         }
         threads[s].push(Op::Dispatch { id: t.id });
-        if bpanic(t) {
-            // see allow_bpanic above
-            threads[s].push(Op::Wait { id: t.id });
-            continue;
-        }
         mine[s].push(t.id);
         // with faulty workers a receiver may legitimately stay pending until join is called
         if fault == "none" && r.pct(25) {
@@ -267,17 +245,6 @@ pub fn generate(seed: u64, iour_ok: bool) -> Program {
                 for id in mine[s].drain(..) {
                     threads[s].push(Op::Wait { id });
                 }
-            }
-            // see allow_blocking above
-            let uses_pool = |id: u32| {
-                tasks
-                    .iter()
-                    .any(|t| t.id == id && t.kind == "async" && t.body.contains(&Step::Blocking))
-            };
-            let (wait, keep): (Vec<u32>, Vec<u32>) = mine[s].iter().partition(|id| uses_pool(**id));
-            mine[s] = keep;
-            for id in wait {
-                threads[s].push(Op::Wait { id });
             }
         }
     }
@@ -297,7 +264,7 @@ pub fn generate(seed: u64, iour_ok: bool) -> Program {
     }
 }
 
-/// Scenario of the second known finding (AsyncifyPool): two threads call dispatch_blocking at the
+/// Regression scenario of finding C18-dispatch-blocking-starved (AsyncifyPool, repaired): two threads call dispatch_blocking at the
 /// same time, one closure panics at once. When the pool thread spawned by the other caller is
 /// handed the panicking closure it dies, and that caller's rendezvous send never completes.
 pub fn scenario_poolpanic() -> Program {
@@ -331,7 +298,7 @@ pub fn scenario_poolpanic() -> Program {
     }
 }
 
-/// Second scenario of the known finding, default pool limit: the task's first step needs the pool
+/// Second regression scenario of finding C18-join-holds-pool-slot (repaired), default pool limit: the task's first step needs the pool
 /// while join is being called; when the pool thread spawned for it picks up the joiner instead,
 /// the worker blocks for ever in AsyncifyPool::dispatch. A race: repeated until it hangs.
 pub fn scenario_poolrace() -> Program {
@@ -355,7 +322,7 @@ pub fn scenario_poolrace() -> Program {
     }
 }
 
-/// The deterministic scenario of the known finding: a one-slot pool, join called while the only
+/// The deterministic regression scenario of finding C18-join-holds-pool-slot (repaired): a one-slot pool, join called while the only
 /// task sleeps, then the task needs the pool.
 pub fn scenario_pool1(concurrent: bool) -> Program {
     Program {
